@@ -11,6 +11,18 @@ def eval_case(case):
     from .. import sim
     S = O.Static(case)
     out = []
+    if "pert_seq" in case and case.get("edges_in"):
+        # a link declared on the successor's side only: the same network is also built with the link mirrored
+        # (append_input_task).  Violations of the mirrored build are reported as usual; violations that only
+        # the one-sided build shows are the recorded finding C12/onesided.
+        mirrored = dict(case, edges=list(case["edges"]) + [list(e) for e in case["edges_in"]], edges_in=[])
+        out = _direct(mirrored, O.Static(mirrored))
+        onesided = _direct(case, O.Static(case))
+        if onesided and not out:
+            out.append(O.V("the PERT values ignore a dependency that is declared in the successor's input list only",
+                           "C12/onesided", {"edges_in": case["edges_in"], "first": onesided[0].get("detail")}))
+        return {"violations": out, "sig": (S.nt, len(case["edges"]), "onesided"), "hist": {"cases": 1, "direct": 1, "onesided": 1},
+                "nontrivial": True, "summary": None}
     if "pert_seq" in case:
         # direct: progress updates followed by update_PERT_data(t)
         sim.set_ranks(case)
@@ -45,6 +57,23 @@ def eval_case(case):
             "summary": {"time": (trace[0].get("dump") or {}).get("time")}}
 
 
+def _direct(case, S):
+    """progress updates followed by update_PERT_data(t) on a freshly built workflow, judged against S"""
+    from .. import sim
+    out = []
+    sim.set_ranks(case)
+    b = sim.build(case)
+    wf = b.project.workflow
+    wf.initialize()
+    out += O.c12_snapshot(S, sim.snap(b.project), 0, "fresh")
+    for step, (t, rems) in enumerate(case["pert_seq"]):
+        for task, r in zip(wf.task_list, rems):
+            task.remaining_work_amount = float(Fraction(r))
+        wf.update_PERT_data(t)
+        out += O.c12_snapshot(S, sim.snap(b.project), t, "call %d (t=%d)" % (step, t))
+    return out
+
+
 def gen_cases(rng, n):
     cases = []
     for i in range(n):
@@ -63,7 +92,7 @@ def gen_cases(rng, n):
                 seq.append([t, [gen.qs(r) for r in rem]])
             c["pert_seq"] = seq
             c["ops"] = []
-            if nt >= 2 and len(seq) >= 2 and rng.random() < 0.2:
+            if nt >= 2 and len(seq) >= 2 and rng.random() < 0.24:
                 order, indeg = [], [0] * nt
                 for (a, b_, k) in c["edges"]:
                     indeg[b_] += 1
@@ -82,7 +111,10 @@ def gen_cases(rng, n):
                     if pos[a] > pos[b_]:
                         a, b_ = b_, a
                     if not any(x == a and y == b_ for (x, y, k) in c["edges"]):
-                        c["late_edge"] = [rng.randrange(1, len(seq)), a, b_]
+                        if rng.random() < 0.83:
+                            c["late_edge"] = [rng.randrange(1, len(seq)), a, b_]
+                        else:
+                            c["edges_in"] = [[a, b_, 0]]      # declared in the successor's input list only (finding C12/onesided)
         cases.append(c)
     return cases
 
